@@ -95,3 +95,38 @@ def keeps_arguments(ctx, rule: str, func: str, what: str) -> None:
         ctx.bad(rule, f"{func} modifies its argument `{pname}`", f"{w.rel_of(of)}:{ol}", f"`{ot}` in {of} ({k}): {what}")
     else:
         ctx.ok(rule, f"{func} does not modify its arguments", where, "no mutation of a parameter region in its transitive summary")
+
+
+def no_stale_memo(ctx, rule: str, funcs: List[str], what: str) -> None:
+    """No function in the call trees of `funcs` answers from a memo / cache / slot that can hold a value computed for a
+    DIFFERENT argument (incomplete or non-injective cache key, one-slot memo compared on part of its input, keyed memo read and
+    written under different keys).  These are the C17.1/C17.2 findings with a definite witness of the key defect, restricted to
+    the functions this property observes; undecided memo idioms are reported as undecided."""
+    from .codec import OriginModel
+    from .rules_C17 import check_shared_writes
+    w = world(ctx)
+    for f in funcs:
+        if f not in w.model.funcs:
+            raise core.AnalysisError(f"anchor {f} not found")
+    reach = set(w.model.reachable(funcs))
+    fi = w.model.funcs[funcs[0]]
+    where = f"{fi.rel}:{fi.node.lineno}"
+    for f, d in w.model.unknown_decorators():
+        if f in reach:
+            ctx.unk(rule, f"{f} is wrapped by the decorator @{d}", f"{w.rel_of(f)}:{w.model.funcs[f].node.lineno}",
+                    f"what the wrapper remembers between calls is not modelled: whether {what} depends only on the arguments is not decided")
+    rec = core.Recorder(ctx)
+    check_shared_writes(rec, w, OriginModel(ctx.sources))
+    n = 0
+    for o in rec.obligations:
+        owners = set(o.extra.get("owners", ()))
+        if not (owners & reach):
+            continue
+        n += 1
+        stale = o.rule == "C17.2" or "remembered for a different argument" in o.construct or "carries history into results" in o.construct
+        if o.state == core.VIOLATED and stale:
+            ctx.bad(rule, o.construct, o.where, o.detail + f" -- so {what} is not a function of the arguments alone")
+        elif o.state == core.UNDECIDED and not o.construct.startswith("shared buffer"):
+            ctx.unk(rule, o.construct, o.where, o.detail)
+    ctx.ok(rule, f"{', '.join(f.rsplit('.', 1)[-1] for f in funcs)}: no memo with a defective key in the call tree", where,
+           f"{len(reach)} functions reachable, {n} shared-state obligations examined (see C17 for each)")
